@@ -6,6 +6,7 @@
   count-prefixed vectors; serialiser = Spec bytes under the field ranges).  Marked DUP below.
 -/
 import BtcVerif.Model.Messages
+import BtcVerif.Spec.Chain
 import Mathlib.Tactic.IntervalCases
 import Mathlib.Tactic.NormNum
 
@@ -365,7 +366,7 @@ theorem deAddr_append (wt : Bool) (a : NetAddr) (rest : Bytes) (h : WFAddr a)
     rw [serRead_append' 16 _ _ h4 (by decide)]
     simp only [Res.ok_bind]
     rw [serRead_append' 2 (beBytes 2 a.port) rest (by simp [beBytes]) (by decide)]
-    simp only [Res.ok_bind, Res.pure_eq, beNat_beBytes2 _ h5]
+    simp only [Res.ok_bind, beNat_beBytes2 _ h5]
     cases a; simp_all [PROTO_VERSION]
 
 theorem serInv_ok (i : Inv) (h : WFInv i) : serInv i = .ok (invEntry i) := by
@@ -452,8 +453,15 @@ theorem deHeaderEntry_append (h : Header) (rest : Bytes) (hw : WFHeader h) :
   rw [deVarInt_append 0 rest (by decide)]
   rfl
 
+theorem optWF_iff {α} (P : α → Prop) (o : Option α) : optWF P o ↔ ∃ x, o = some x ∧ P x := by
+  cases o <;> simp [optWF]
+
 theorem serVersion_ok (v : VersionMsg) (h : WFVersion v) : serVersion v = .ok (versionPayload v) := by
-  obtain ⟨h1, h2, h3, h4, h5, ⟨h6, _⟩, ⟨fr, hfr, hfw, _⟩, ⟨n, hn, hn2⟩, ⟨s, hs, hs2⟩, ⟨ht, hh, hh1, hh2⟩, h11⟩ := h
+  obtain ⟨h1, h2, h3, h4, h5, ⟨h6, _⟩, g7, g8, g9, g10, h11⟩ := h
+  obtain ⟨fr, hfr, hfw, _⟩ := (optWF_iff _ _).mp g7
+  obtain ⟨n, hn, hn2⟩ := (optWF_iff _ _).mp g8
+  obtain ⟨s, hs, hs2⟩ := (optWF_iff _ _).mp g9
+  obtain ⟨ht, hh, hh1, hh2⟩ := (optWF_iff _ _).mp g10
   have := maxSize_lt
   unfold serVersion versionPayload
   rw [hfr, hn, hs, hh]
@@ -468,7 +476,11 @@ theorem serVersion_ok (v : VersionMsg) (h : WFVersion v) : serVersion v = .ok (v
 
 theorem deVersion_append (v : VersionMsg) (rest : Bytes) (h : WFVersion v) :
     deVersion (versionPayload v ++ rest) = .ok (.version v, rest) := by
-  obtain ⟨h1, h2, h3, h4, h5, ⟨h6, h6t⟩, ⟨fr, hfr, hfw, hft⟩, ⟨n, hn, hn2⟩, ⟨s, hs, hs2⟩, ⟨ht, hh, hh1, hh2⟩, h11⟩ := h
+  obtain ⟨h1, h2, h3, h4, h5, ⟨h6, h6t⟩, g7, g8, g9, g10, h11⟩ := h
+  obtain ⟨fr, hfr, hfw, hft⟩ := (optWF_iff _ _).mp g7
+  obtain ⟨n, hn, hn2⟩ := (optWF_iff _ _).mp g8
+  obtain ⟨s, hs, hs2⟩ := (optWF_iff _ _).mp g9
+  obtain ⟨ht, hh, hh1, hh2⟩ := (optWF_iff _ _).mp g10
   have c0 : ¬ v.nVersion = 10300 := by omega
   have c1 : v.nVersion ≥ 106 := by omega
   have c2 : v.nVersion ≥ 209 := by omega
@@ -493,7 +505,7 @@ theorem deVersion_append (v : VersionMsg) (rest : Bytes) (h : WFVersion v) :
   rw [readI4_append _ _ hh1 hh2]
   simp only [Res.ok_bind, Res.pure_eq]
   rw [readU_append 1 _ _ (by decide) (by norm_num; omega)]
-  simp only [Res.ok_bind, Res.pure_eq]
+  simp only [Res.ok_bind]
   cases v; simp_all
 
 theorem deAlert_append (m s rest : Bytes) (hm : m.length ≤ maxSize) (hs : s.length ≤ maxSize) :
@@ -671,7 +683,7 @@ theorem deTx_append (t : Tx) (rest : Bytes) (h : WFTx t) :
     simp only [hw, if_true, txExtended, List.append_assoc]
     rw [readI4_append _ _ h1 h2]
     simp only [Res.ok_bind, List.cons_append, List.nil_append, readU1_cons]
-    simp only [show ((0 : UInt8).toNat = 0 ∧ (1 : UInt8).toNat = 1) from by decide, if_true]
+    simp only [show ((0 : UInt8).toNat = 0 ∧ (1 : UInt8).toNat = 1) from by decide]
     rw [hvin]
     simp only [Res.ok_bind]
     rw [hvout]
@@ -800,4 +812,17 @@ theorem msgSer_norm (m : Msg) : msgSer (norm m) = msgSer m := by
 theorem command_norm (m : Msg) : command (norm m) = command m := by
   cases m <;> rfl
 
+end BtcVerif
+
+namespace BtcVerif
+open Model.Msg
+theorem dispatch_snd (c m r : Bytes) : (dispatch c m r).2 = r := by
+  unfold dispatch
+  cases msgDeser c with
+  | none => rfl
+  | some p =>
+    simp only
+    cases p m with
+    | ok x => rfl
+    | error e => rfl
 end BtcVerif
